@@ -257,6 +257,9 @@ def handle (cfg : Cfg) (st : St) (line : String) : St × String :=
       let ws' := res.1
       ({ st with wl := some (cfg, ws') },
         s!"wl {if running then 1 else 0} {if res.2 then 1 else 0} {ws'.cur} {ratStr (ws'.g.getD ws'.cur 0)} {ws'.H.getD ws'.cur 0} {ws'.fexp} {ws'.nstep} {ws'.niter} {if wlRunning cfg ws' then 1 else 0}")
+  | ["wlcfg", lo, hi, nb] =>
+    let r := wlConfig (parseRatTok lo) (parseRatTok hi) nb.toNat!
+    (st, s!"wlcfg {r.1}" ++ String.join (r.2.map (fun i => s!" {i}")))
   | ["wlg"] =>
     match st.wl with
     | none => (st, "bad-op nowl")
